@@ -1,5 +1,5 @@
 # Builds vsim from /repo's CURRENT working tree.
-#   make FLAVOR=plain|san|cov      -> build/$(FLAVOR)/vsim
+#   make FLAVOR=plain|san|cov|dbg      -> build/$(FLAVOR)/vsim
 # Library sources are taken from src/CMakeLists.txt at make time, so a file
 # added to / removed from the library is picked up.  -MMD dependency files make
 # any header edit under /repo rebuild exactly what includes it.
@@ -20,11 +20,15 @@ SIMOBJS := $(patsubst sim/%.cc,$(B)/sim/%.o,$(SIMSRCS))
 CXX_plain := g++
 CXX_san   := g++
 CXX_cov   := g++
+CXX_dbg   := g++
 CXX       := $(CXX_$(FLAVOR))
 
 OPT_plain := -O1 -g1
 OPT_san   := -O1 -g1 -fsanitize=address,undefined -fno-sanitize-recover=undefined -fno-omit-frame-pointer -DVSIM_SAN=1
 OPT_cov   := -O0 -g1 --coverage -DVSIM_COV=1
+# libstdc++ debug mode: every container and iterator checks its preconditions (past-the-end dereference, invalidated
+# or singular iterators, iterators of another container, unsorted ranges) and aborts with a diagnostic
+OPT_dbg   := -O1 -g1 -D_GLIBCXX_DEBUG -D_GLIBCXX_DEBUG_PEDANTIC -DVSIM_DBG=1
 OPT       := $(OPT_$(FLAVOR))
 
 # as shipped: RelWithDebInfo => NDEBUG (DESIGN.md section 6)
